@@ -399,6 +399,14 @@ theorem step_auth (st : St) (op : Op) : AuthFrom st.db.users (extraOf st op) (st
       simp only [hdb, Db.putUser]
       exact authFrom_put (fun e he => by cases he)
     exact setUser_auth_from hpre (fun e he => by cases he)
+  | logout id =>
+    simp only [step, extraOf]
+    apply withUser_auth
+    intro u hu huid
+    dsimp only [clearAuth]
+    have hdb := invalidate_fold_users st u.auth
+    simp only [hdb, Db.putUser]
+    exact authFrom_put (fun e he => by cases he)
   | rename id name =>
     simp only [step, extraOf]
     apply withUser_auth
@@ -502,6 +510,13 @@ theorem step_auth (st : St) (op : Op) : AuthFrom st.db.users (extraOf st op) (st
   | lookup s =>
     simp only [step, extraOf]
     exact getUserId_auth st s
+  | pruned id kept =>
+    simp only [step, extraOf]
+    apply withUser_auth
+    intro u hu huid
+    split
+    · exact authFrom_put (fun e he => Or.inl ⟨u, hu, rfl, (List.mem_filter.1 he).1⟩)
+    · exact authFrom_refl _ _
   | order id masks =>
     simp only [step, extraOf]
     apply withUser_auth
@@ -1066,6 +1081,8 @@ theorem step_namesOK {st0 st : St} (hi : Inv st) (hs : sig st.db.users = sig st0
   | secure id b => exact namesOK_of_sig hok (step_sig_same hi _ rfl)
   | tick dt => exact namesOK_of_sig hok (step_sig_same hi _ rfl)
   | rename _ _ => cases hop
+  | logout _ => cases hop
+  | pruned _ _ => cases hop
   | load _ _ _ _ => cases hop
   | followNick id a b => exact namesOK_of_sig hok (step_sig_same hi _ rfl)
   | delUser _ => cases hop
